@@ -258,6 +258,54 @@ pub fn run(run: &mut Run) -> &'static str {
         Case::Explicit { hash_mb, searches } => run_list(*hash_mb, searches, st),
     });
     }
+    // all 255 iterations: positions whose tree is so small (every reply an immediate draw by the
+    // fifty-move rule or by material) that a search to the largest depth takes
+    // milliseconds; the reported depths must still be 1, 2, 3 ... and stop at the limit
+    let cases = tier.pick(600, 10_000);
+    let strat = tape(12..40).prop_map(Case::Tape);
+    run.proptest_part("all_iterations", RULE, strat, cases, move |c: &Case, st: &mut Stats| match c {
+        Case::Tape(data) => {
+            let mut t = Tape::new(data);
+            // kings and one piece, or two minor pieces of one colour: whatever is captured, what remains
+            // is a dead draw, so no line is longer than two plies (clock 98) or one (clock 99 and more)
+            let mut p = Pos::empty();
+            let mut place = |p: &mut Pos, t: &mut Tape, pc: Pc| {
+                for _ in 0..8 {
+                    let s = t.pick(64);
+                    if p.board[s].is_none() {
+                        p.board[s] = Some(pc);
+                        return;
+                    }
+                }
+            };
+            place(&mut p, &mut t, Pc::new(true, Kind::K));
+            place(&mut p, &mut t, Pc::new(false, Kind::K));
+            let white = t.pick(2) == 0;
+            if t.pick(3) == 0 {
+                for _ in 0..2 {
+                    let pc = Pc::new(white, [Kind::B, Kind::N][t.pick(2)]);
+                    place(&mut p, &mut t, pc);
+                }
+            } else {
+                let pc = Pc::new(white, [Kind::R, Kind::Q, Kind::B, Kind::N][t.pick(4)]);
+                place(&mut p, &mut t, pc);
+            }
+            p.white_to_move = t.pick(2) == 0;
+            p.halfmove = [99u32, 99, 98, 100, 120][t.pick(5)];
+            p.fullmove = 100;
+            if p.validate().is_err() || p.legal_moves().is_empty() {
+                st.discard();
+                return Ok(());
+            }
+            let depth = [255u8, 255, 254, 250, 200][t.pick(5)];
+            if p.in_check() {
+                st.class("root_in_check");
+            }
+            st.class(if depth == 255 { "depth_limit_255" } else { "depth_limit_120_to_254" });
+            run_list(1, &[SearchSpec { fen: p.to_fen(), moves: vec![], limit: Limit::Depth(depth) }], st)
+        }
+        Case::Explicit { hash_mb, searches } => run_list(*hash_mb, searches, st),
+    });
     if profile_name() == "checked" && super::ucilib::engine_available() {
         let cases = tier.pick(400, 6_000);
         let strat = tape(16..120).prop_map(Case::Tape);
@@ -274,7 +322,7 @@ pub fn run(run: &mut Run) -> &'static str {
     }
     if let Ok(bin) = std::env::var("VERIF_FAST_BIN") {
         if profile_name() == "checked" && run.only_parts.is_empty() {
-            run_sub_process(run, &bin, &["searches", "deep_mating_endgames"]);
+            run_sub_process(run, &bin, &["searches", "deep_mating_endgames", "all_iterations"]);
         }
     }
     RULE
